@@ -381,13 +381,30 @@ func readOnly(doc *gedcom.Document, name string) (msg string) {
 	case "Query":
 		for _, qs := range []string{".Individuals | .Name | .String", ".Families | { h: .Husband | .String, w: .Wife | .String }",
 			".Individuals | Only(.Families | Length = 0) | .Pointer", ".Nodes | Length", ".Individuals | .Spouses | .Pointer",
-			".Families | Only(.Children | Length > 0) | .Pointer", ".Individuals | First(1) | .Parents", ".Nodes | Last(2) | .Tag"} {
-			eng, err := q.NewParser().ParseString(qs)
-			if err != nil {
-				continue
-			}
-			_, _ = eng.Evaluate([]*gedcom.Document{doc})
+			".Families | Only(.Children | Length > 0) | .Pointer", ".Individuals | First(1) | .Parents", ".Nodes | Last(2) | .Tag",
+			// filters, prefixes and concatenations applied directly to the lists the API hands out
+			`.Nodes | Only(.Pointer != "I1")`, `.Nodes | Only(.Pointer = "I2") | .Pointer`, `.Families | Only(.Pointer != "F1")`,
+			`.Nodes | Only(.Pointer = "")`, `.Individuals | Only(.Pointer != "I1") | .Pointer`,
+			"Combine(.Nodes | First(1), .Nodes | Last(1)) | .Pointer", "Combine(.Families | First(1), .Families | Last(2))",
+			"Combine(.Individuals | First(1), .Individuals) | Length", ".Nodes | First(1) | .Nodes | Only(.Value != \"\")",
+			".Nodes | Last(1)", ".Families | First(1) | .Children", ".Individuals | .Names | Length"} {
+			func() {
+				defer func() { // a panicking query (C15) must not hide the next ones
+					if r := recover(); r != nil && msg == "" {
+						msg = fmt.Sprint(r)
+						if len(msg) > 160 {
+							msg = msg[:160]
+						}
+					}
+				}()
+				eng, err := q.NewParser().ParseString(qs)
+				if err != nil {
+					return
+				}
+				_, _ = eng.Evaluate([]*gedcom.Document{doc})
+			}()
 		}
+		return msg
 	}
 	return ""
 }
